@@ -59,6 +59,17 @@ class Chooser:
         return c
 
 
+def _unraisable(u) -> None:
+    """exceptions in __del__ while a virtual thread is being unwound are expected"""
+    if isinstance(u.exc_value, (vworld.Teardown, vworld.ProcExit)):
+        return
+    w = vworld.current_world()
+    if w is None:
+        sys.__stderr__.write(f"Exception ignored in {u.object!r}: {type(u.exc_value).__name__}: {u.exc_value}\n")
+    else:
+        w.stderr.write(f"Exception ignored in {getattr(u.object, '__qualname__', type(u.object).__name__)}: {type(u.exc_value).__name__}: {u.exc_value}\n")
+
+
 class Result:
     __slots__ = ("trace", "fps", "violation", "outcome", "capped", "steps", "log", "obs", "stderr", "now")
 
@@ -72,6 +83,7 @@ def run_once(scenario, oracle, params, prefix, *, stmt_mask=None, horizon=20000,
     old_out = sys.stdout
     sys.stderr = w.stderr
     sys.stdout = w.stdout
+    sys.unraisablehook = _unraisable  # stays installed: objects of a finished world are finalised later
     gc.disable()
     res = Result()
     ctx = None
@@ -98,6 +110,14 @@ def run_once(scenario, oracle, params, prefix, *, stmt_mask=None, horizon=20000,
                 res.violation, res.outcome = out
             else:
                 res.violation = out
+        else:
+            # the step horizon was reached: the scenario (finite work) did not quiesce
+            res.violation = (
+                "horizon",
+                f"execution did not quiesce within {horizon} scheduling points (livelock, spinning or unbounded activity)\n"
+                f"  params={params}\n  virtual time={w.now}\n  still active={blocked}\n  log tail={w.logl[-6:]}",
+            )
+            res.outcome = "horizon"
         res.trace = ch.trace
         res.fps = ch.fps
         res.steps = w.steps
@@ -198,15 +218,17 @@ class Stats:
         self.known.update(o.known)
 
 
-_CLS = [SYNC, STMT, FREE, ENV]
+_CLS = [SYNC, STMT, FREE, ENV, "cut"]
 _CLSI = {c: i for i, c in enumerate(_CLS)}
 
 
 def pack(prefix) -> tuple:
     """compact, picklable form of a prefix"""
+    from array import array
+
     return (
-        bytes(c for c, _n, _k in prefix),
-        bytes(min(n, 255) for _c, n, _k in prefix),
+        array("H", [c for c, _n, _k in prefix]).tobytes(),
+        array("H", [min(n, 65535) for _c, n, _k in prefix]).tobytes(),
         bytes(_CLSI[k] for _c, _n, k in prefix),
     )
 
@@ -214,8 +236,14 @@ def pack(prefix) -> tuple:
 def unpack(p) -> list:
     if isinstance(p, list):
         return p
+    from array import array
+
     cs, ns, ks = p
-    return [(c, n, _CLS[k]) for c, n, k in zip(cs, ns, ks)]
+    ca = array("H")
+    ca.frombytes(cs)
+    na = array("H")
+    na.frombytes(ns)
+    return [(c, n, _CLS[k]) for c, n, k in zip(ca, na, ks)]
 
 
 def _to_prefix(item) -> list:
